@@ -245,7 +245,13 @@ var helpers = []helper{
 		n := 0
 		_ = commands.Command{JID: jTo, Node: "config"}.ForEach(ctx, nil, e.sv.Session, func(resp commands.Response, r xml.TokenReader) (commands.Command, xml.TokenReader, error) {
 			n++
-			// a real consumer parses the payload (a form, notes) and reports what it cannot use
+			// a real consumer checks the status and parses the payload (a form,
+			// notes) and reports what it cannot use
+			switch resp.Status {
+			case "executing", "completed", "canceled":
+			default:
+				return commands.Command{}, nil, fmt.Errorf("unknown command status %q", resp.Status)
+			}
 			d := xml.NewTokenDecoder(r)
 			for {
 				tok, err := d.Token()
